@@ -145,7 +145,13 @@ def sites(root: I.El, spec: G.ModelSpec) -> list[tuple]:
                 out.append(("attr-charref", i, j))
     # default namespace <-> prefix for the root's namespace (only when no value can be a prefixless QName and
     # no element lives in "no namespace")
-    if not qnameish and not generic:
+    # ... or, for documents that do carry QName values / generic content, when every value is visibly not a prefixless name
+    # (a prefixless QName value takes the default namespace, so changing the default would change the value)
+    import re as _re
+    def _bare_name(v):
+        return any(_re.fullmatch(r"[A-Za-z_][\w.\-]*", tok) for tok in v.split())
+    bare = any(_bare_name(v) for x in all_els for _k, v in x.attrs if isinstance(v, str)) or any(_bare_name(t) for x in all_els for t in x.kids if isinstance(t, str))
+    if (not qnameish and not generic) or not bare:
         rp = root.prefix
         sc = dict(root.nsdecls)
         if rp and sc.get(rp) and all(x.prefix for x in all_els):
@@ -169,6 +175,11 @@ def sites(root: I.El, spec: G.ModelSpec) -> list[tuple]:
             if any(isinstance(t, str) and len(t) >= 2 for x in k.iter() for t in x.kids):
                 out.append(("xinclude", j, "comment"))
                 out.append(("xinclude", j, "pi"))
+    # XInclude of a text part (parse="text") in an encoding of its own: the text of an element that has text only
+    for i, e in enumerate(all_els):
+        if len(e.kids) == 1 and isinstance(e.kids[0], str) and e.kids[0] and "\r" not in e.kids[0]:
+            out.append(("xinclude-text", i, "UTF-16LE"))
+            out.append(("xinclude-text", i, "iso-8859-1"))
     return out
 
 
@@ -329,6 +340,17 @@ def apply(root: I.El, rw: tuple, spec: G.ModelSpec, workdir: str):
         r.kids[rw[1]] = inc
         mode = "xinclude"
         extra["xinclude"] = True
+    elif kind == "xinclude-text":
+        e = all_els[rw[1]]
+        try:
+            raw = e.kids[0].encode(rw[2])
+        except UnicodeEncodeError:
+            return None
+        with open(os.path.join(workdir, "part.txt"), "wb") as fh:
+            fh.write(raw)
+        e.kids[0] = I.El("xi:include", {"xi": XI}, [("href", "part.txt"), ("parse", "text"), ("encoding", rw[2])], [])
+        mode = "xinclude"
+        extra["xinclude"] = True
     text = _write(r)
     if enc == "utf-8":
         data = text.encode("utf-8")
@@ -456,7 +478,7 @@ def h_rewrite(ch: Chooser, vec: list, maxf: int, nrewrites: int, seed: str | Non
             if k == 0:
                 break
             rw = all_sites[k - 1]
-            if rw[0] == "xinclude" and workdir is None:
+            if rw[0] in ("xinclude", "xinclude-text") and workdir is None:
                 workdir = tempfile.mkdtemp(prefix="vmc_c09_")
             res = apply(cur_root, rw, spec, workdir)
             if res is None:
@@ -466,7 +488,7 @@ def h_rewrite(ch: Chooser, vec: list, maxf: int, nrewrites: int, seed: str | Non
             modes.add(md)   # the infoset self-check below honours what every applied rewrite allows
             chosen.append(rw)
             if n + 1 < nrewrites:
-                if rw[0] in ("encode", "xinclude", "attr-charref") or any(isinstance(k2, tuple) for e2 in [0] for k2 in []):
+                if rw[0] in ("encode", "xinclude", "xinclude-text", "attr-charref") or any(isinstance(k2, tuple) for e2 in [0] for k2 in []):
                     break
                 try:
                     cur_root = I.from_text(data)
